@@ -259,3 +259,34 @@ def r02f(ctx, rep, which):
                                   'does not seek: after a rotation the cursor stays at the old offset and later records are written behind a '
                                   'hole of zero bytes that replay stops at' % (lib.short(f.name), {k: sorted(set(lib.short(x) for x in v)) for k, v in kinds.items()}))
         rep.notes.append('R02f: %s handle kinds %s, %d set_len site(s)' % (w, {k: len(v) for k, v in kinds.items()}, n))
+
+
+def r02g(ctx, rep, which):
+    rep.rule('R02g', 'the log reader refuses nothing the writer accepted: in everything reachable from open() and replay of a WAL, a '
+                     'comparison of a decoded record length (or a buffer length) with a bound made of constants only — a size policy, as '
+                     'opposed to a comparison with the file length or format arithmetic — has a counterpart on the same constant in the '
+                     'append path. A replay that stops at a record larger than N while append acknowledges such records drops that '
+                     'record and every acknowledged write after it')
+    for w in which:
+        spec = WALS[w]
+        cr = ctx.crate(spec['crate'])
+        cg = ctx.callgraph([spec['crate']])
+        starts = [x.name for x in (_find(cr, spec['open']), _find(cr, spec['replay'])) if x is not None]
+        if len(starts) < 2:
+            rep.violation('R02g', 'anchor-missing', w, '-', 'anchor-missing: open/replay of %s not found' % w)
+            continue
+        base = re.sub(r'::<[^>]*>', '', spec['struct'])
+        mod = base.rsplit('::', 1)[0]
+        readers = [cg.fns[n] for n in cg.reach(starts) if n in cg.fns and n.startswith(mod + '::')]
+        writers = [g for n, g in cr.fns.items() if re.sub(r'::<[^>]*>', '', n).startswith(base + '::') and
+                   re.search(r'::(append\w*|write_entry\w*)$', A.parent_fn(n))]
+        bad, n = lib.reader_only_policies(readers, writers)
+        for k, (g, line, op, cs) in enumerate(bad):
+            rep.analysed(g)
+            rep.violation('R02g', g, 'reader-only-limit', g.loc(line),
+                          'the reader compares a record length with %s and the append path has no such test: a record the writer '
+                          'acknowledged is treated as damage on replay, and replay stops there — it and every later acknowledged write are '
+                          'gone after a restart' % ', '.join(cs))
+        if not bad:
+            rep.holds('R02g', starts[1], '%s size policies' % w, '%d reader function(s), %d policy comparison(s), all matched by the writer' % (len(readers), n))
+        rep.floor('R02g', 'functions reachable from open/replay of %s' % w, len(readers), 2)
